@@ -19,6 +19,7 @@ let split_on sep l =  (* split a word list on a separator word *)
 type shape = USet | UMap | UMMap | OSet | OMSet | OMap | OMMap | Vec
 let shape_of = function
   | "uset" | "uset_o" -> USet | "umap" | "umap_o" -> UMap | "ummap" | "ummap_o" -> UMMap
+  | "smap" | "momap" -> OMap | "sumap" | "moumap" -> UMap
   | "set" -> OSet | "mset" -> OMSet | "map" -> OMap | "mmap" -> OMMap | "vec" -> Vec | _ -> failwith "kind"
 let is_map = function UMap | UMMap | OMap | OMMap -> true | _ -> false
 let is_multi = function UMMap | OMSet | OMMap -> true | _ -> false
@@ -29,7 +30,7 @@ type cont = { mutable l : (BinNums.coq_Z * BinNums.coq_Z) list;   (* ordered: th
               mutable mm : (BinNums.coq_Z * BinNums.coq_Z list) list; (* unordered_multimap: nested HashMultiMap state *)
               mutable aid : int }
 
-let run_assoc sh ak idA idB ops =
+let run_assoc typed sh ak idA idB ops =
   let stateful = ak <> 0 in
   let cca, cma, cs = (match ak with 2 -> true, true, true | 3 -> true, false, true | 4 -> false, true, false | _ -> false, false, false) in
   let c = [| { l = []; mm = []; aid = if stateful then idA else 0 }; { l = []; mm = []; aid = if stateful then idB else 0 } |] in
@@ -77,22 +78,32 @@ let run_assoc sh ak idA idB ops =
     | "ins" | "emp" | "insc" | "empp" ->
       let (p, b) = insert x (zi (ai w 2), zi (ai w 3)) in if multi then p else p ^ "," ^ bstr b
     | "insh" | "emph" -> let (p, _, _) = insert_hint x (ai w 2) (zi (ai w 3), zi (ai w 4)) in p
-    | "insr" -> L.iter (fun e -> ignore (insert x e)) (pairs w 2); "-"
+    | "insr" | "insm" -> L.iter (fun e -> ignore (insert x e)) (pairs w 2); "-"
     | "insl" -> let ps = pairs w 2 in L.iteri (fun i e -> if i < 4 then ignore (insert x e)) ps; "-"
-    | "find" -> find_pos x (zi (ai w 2))
-    | "cnt" -> string_of_int (count x (zi (ai w 2)))
-    | "has" -> bstr (count x (zi (ai w 2)) > 0)
-    | "eqr" -> let k = zi (ai w 2) in
+    | "find" | "findh" -> find_pos x (zi (ai w 2))
+    | "cnt" | "cnth" -> string_of_int (count x (zi (ai w 2)))
+    | "has" | "hash" -> bstr (count x (zi (ai w 2)) > 0)
+    | "eqr" | "eqrh" -> let k = zi (ai w 2) in
       if ordered then pos_i (Spec.lower_bound k x.l) ^ "," ^ pos_i (Spec.upper_bound k x.l)
       else "{" ^ String.concat "," (L.sort compare (L.map e2s (Spec.u_filter_key k (contents x)))) ^ "}"
-    | "lb" -> if ordered then pos_i (Spec.lower_bound (zi (ai w 2)) x.l) else ""
-    | "ub" -> if ordered then pos_i (Spec.upper_bound (zi (ai w 2)) x.l) else ""
+    | "lb" | "lbh" -> if ordered then pos_i (Spec.lower_bound (zi (ai w 2)) x.l) else ""
+    | "ub" | "ubh" -> if ordered then pos_i (Spec.upper_bound (zi (ai w 2)) x.l) else ""
     | "erk" -> string_of_int (erase_key x (zi (ai w 2)))
     | "eri" -> if not ordered then "" else let p = ai w 2 in
       if p >= 0 && p < len x.l then (let (r, l') = Spec.ord_erase_range (ni p) (ni (p + 1)) x.l in x.l <- l'; pos_i r) else "skip"
     | "err" -> if not ordered then "" else let i = ai w 2 and j = ai w 3 in
       if 0 <= i && i <= j && j <= len x.l then (let (r, l') = Spec.ord_erase_range (ni i) (ni j) x.l in x.l <- l'; pos_i r) else "skip"
-    | "erf" | "err1" -> let k = zi (ai w 2) and v = zi (ai w 3) in
+    | "erloop" -> let m = max 1 (ai w 2) and r = ai w 3 in
+      let p k = (((iz k mod m) + m) mod m) = r in
+      let before = len (contents x) in
+      (if sh = UMMap then x.mm <- WrapEq.mm_erase_if p x.mm else x.l <- L.filter (fun e -> not (p (fst e))) x.l);
+      Printf.sprintf "%d/%d" (before - len (contents x)) before
+    | "mrgm" | "mrgt" -> if not ordered then "" else begin
+        let t = L.fold_left (fun t e -> snd (Spec.ord_insert (not multi) e t)) [] (pairs w 2) in
+        let t' = (if o = "mrgm" then (let (a, b) = Spec.ord_merge multi x.l t in x.l <- a; b)
+                  else (let (a, b) = Spec.ord_merge (not multi) t x.l in x.l <- b; a)) in
+        dump true t' end
+    | "erf" | "err1" | "ernx" -> let k = zi (ai w 2) and v = zi (ai w 3) in
       let target = if multi then (if L.exists (fun e -> cmp_elem e (k, v) = 0) (contents x) then Some (k, v) else None) else first_with_key x k in
       (match target with Some e -> ignore (remove_elem x e); "ok" | None -> "none")
     | "erre" -> ignore (erase_key x (zi (ai w 2))); "ok"
@@ -105,7 +116,8 @@ let run_assoc sh ak idA idB ops =
         (match first_with_key x k with
          | Some _ -> if ordered then x.l <- Spec.ord_assign_at (Spec.ord_find k x.l) v x.l else x.l <- Spec.u_assign k v x.l
          | None -> ignore (insert x (k, v))); "-" end else ""
-    | "try" -> if ismap && not multi then (let (p, b) = insert x (zi (ai w 2), zi (ai w 3)) in p ^ "," ^ bstr b) else ""
+    | "try" -> if ismap && not multi then (let (p, b) = insert x (zi (ai w 2), zi (ai w 3)) in p ^ "," ^ bstr b ^ (if typed then "," ^ bstr (not b) else "")) else ""
+    | "tryr" -> if ismap && not multi then (let (p, b) = insert x (zi (ai w 2), zi (ai w 3)) in p ^ "," ^ bstr b ^ (if typed then "," ^ bstr (not b) ^ "1" else "")) else ""
     | "tryh" -> if ismap && not multi then (let (p, _, _) = insert_hint x (ai w 2) (zi (ai w 3), zi (ai w 4)) in p) else ""
     | "ioa" | "ioah" -> if ismap && not multi then begin
         let h, k, v = (if o = "ioa" then 0, zi (ai w 2), zi (ai w 3) else ai w 2, zi (ai w 3), zi (ai w 4)) in
@@ -117,11 +129,12 @@ let run_assoc sh ak idA idB ops =
     | "exti" -> if not (has_nodes sh) then "" else
       if ordered then (let p = ai w 2 in if p >= 0 && p < len x.l then (let e = L.nth x.l p in x.l <- Spec.erase_range (ni p) (ni (p + 1)) x.l; e2s e) else "skip")
       else (match first_with_key x (zi (ai w 2)) with Some e -> ignore (remove_elem x e); e2s e | None -> "none")
-    | "xins" | "xinsh" -> if not (has_nodes sh) then "" else begin
-        let d = c.(ai w 2 land 1) in let n = first_with_key x (zi (ai w 3)) in
-        (match n with Some e -> ignore (remove_elem x e) | None -> ());
+    | "xins" | "xinsh" | "xmut" -> if not (has_nodes sh) then "" else begin
+        let d = c.(ai w 2 land 1) in let n0 = first_with_key x (zi (ai w 3)) in
+        (match n0 with Some e -> ignore (remove_elem x e) | None -> ());
+        let n = (if o = "xmut" then (match n0 with Some e -> Some (zi (ai w 4), snd e) | None -> None) else n0) in
         let endpos = if ordered then string_of_int (len d.l) else "end" in
-        node_str n ^ ">" ^
+        node_str n0 ^ ">" ^
         (match n with
          | None -> if o = "xinsh" || multi then endpos else endpos ^ ",0,empty"
          | Some e ->
@@ -218,6 +231,16 @@ let run_vec ak idA idB ops =
 
 (* ---------------- erase(first,last) with iterator kinds: the wrapper model on the given traversal order ---------------- *)
 let parse_elem s = match String.split_on_char ':' s with [a; b] -> (z_of_string a, z_of_string b) | _ -> failwith "elem"
+let run_wl kind parts =
+  match parts with
+  | [_; its; order] ->
+    let order = L.map parse_elem order in
+    let its = Array.of_list (L.map int_of_string its) in
+    let a = if its.(0) < 0 then WrapErase.End else WrapErase.At (ni its.(0), its.(1) <> 0) in
+    let step = (match shape_of kind with UMMap -> IterLoop.mm_erase_at | _ -> IterLoop.us_erase_at) in
+    let (rest, n) = IterLoop.erase_loop step (ni (len order + 1)) order a in
+    Printf.sprintf "n=%d rest=%s" (inat n) (dump false rest)
+  | _ -> "?"
 let run_we kind parts =
   match parts with
   | [_; its; order] ->
@@ -254,13 +277,15 @@ let () = iter_lines (fun line ->
      | head :: ops ->
        (match head with
         | "we" :: kind :: _hm :: rest -> run_we kind (split_on "/" rest)
+        | "wl" :: kind :: _hm :: rest -> run_wl kind (split_on "/" rest)
+        | "pbs" :: _ -> "ok"
         | ("mmk" | "mmko") :: _hm :: rest -> run_mmk rest
         | kind :: _ ->
           let h = Array.of_list head in
           let ops = L.map Array.of_list ops in
           (match shape_of kind with
            | Vec -> run_vec (ai h 1) (ai h 2) (ai h 3) ops
-           | sh -> run_assoc sh (ai h 1) (ai h 2) (ai h 3) ops)
+           | sh -> run_assoc (L.mem kind ["smap"; "sumap"; "momap"; "moumap"]) sh (ai h 1) (ai h 2) (ai h 3) ops)
         | [] -> "?"))
   with e -> "MODEL-EXC " ^ Printexc.to_string e) in
   print_endline res)
